@@ -39,9 +39,9 @@ static std::string grid(double x) {  // integer on the 2^-40 grid (nearest); "na
 }
 static std::string grid2(const Vec2& v) { return grid(v.x) + " " + grid(v.y); }
 static std::string hd2(const Vec2& v) { return hex_dbl(v.x) + " " + hex_dbl(v.y); }
-static std::string grid60(double t) {  // parameters in [0,1] on the 2^-60 grid
-    if (!std::isfinite(t)) return "nan";
-    return hex_i64(llround(ldexp(t, 60)));
+static std::string grid60(long double t) {  // parameters in [0,1] on the 2^-60 grid
+    if (!std::isfinite((double)t)) return "nan";
+    return hex_i64(llroundl(ldexpl(t, 60)));
 }
 static double parse_dbl(const std::string& s) { return bits_dbl(strtoull(s.c_str(), NULL, 16)); }
 static bool same_bits_or_zero(double a, double b) { return a == b; }  // +0 == -0 accepted
@@ -156,49 +156,61 @@ static ld seg_dist(ld px, ld py, const Vec2& a, const Vec2& b) {
     return fabsl(cr) / sqrtl(L);
 }
 // smallest parameter in (tlo, thi] at which the curve passes (numerically) through v; -1 if none.
-// Greedy smallest witnesses succeed whenever an increasing witness sequence exists at all.
-static double find_t_window(const std::vector<Vec2>& c, const Vec2& v, double tlo, double thi, ld scale, ld& best_f, double& best_t) {
-    const int G = 128;
-    ld f[G + 1], ts[G + 1];
-    ld accept = (1e-11L * scale) * (1e-11L * scale);
-    bool allzero = true;
-    for (int i = 0; i <= G; i++) {
-        ts[i] = tlo + (thi - (ld)tlo) * i / G;
-        f[i] = bez_dist2(c, ts[i], v);
-        allzero = allzero && f[i] <= accept;
-    }
-    if (allzero) return (double)(tlo + (thi - (ld)tlo) / 2);  // the curve rests at v over the whole window
-    for (int i = 0; i <= G; i++) {
-        bool lmin = (i == 0 || f[i] <= f[i - 1]) && (i == G || f[i] <= f[i + 1]);
-        if (!lmin) continue;
-        ld lo = ts[i > 0 ? i - 1 : 0], hi = ts[i < G ? i + 1 : G];
-        for (int it = 0; it < 90; it++) {  // ternary search in the bracket
-            ld m1 = lo + (hi - lo) / 3, m2 = hi - (hi - lo) / 3;
-            if (bez_dist2(c, m1, v) <= bez_dist2(c, m2, v)) hi = m2; else lo = m1;
+// Greedy smallest witnesses succeed whenever an increasing witness sequence exists at all.  Two levels
+// of scanning separate the close minima of a hairpin (the two branches) before the ternary search.
+struct TSearch {
+    const std::vector<Vec2>& c;
+    const Vec2& v;
+    ld tlo, accept;
+    ld best_f, best_t;
+    bool final_vertex;
+    ld scan(ld lo, ld hi, int depth) {
+        const int G = 128;
+        ld f[129], ts[129];
+        bool allzero = true;
+        for (int i = 0; i <= G; i++) {
+            ts[i] = lo + (hi - lo) * i / G;
+            f[i] = bez_dist2(c, ts[i], v);
+            allzero = allzero && f[i] <= accept;
         }
-        double td = (double)((lo + hi) / 2);
-        if (td <= tlo) td = nextafter(tlo, 2.0);
-        if (td > thi) td = thi;
-        ld fm = bez_dist2(c, td, v);
-        if (fm <= accept) return td;  // first (smallest) acceptable minimum
-        if (best_f < 0 || fm < best_f) {
-            best_f = fm;
-            best_t = td;
+        if (allzero && depth == 0) return lo + (hi - lo) / 2;  // the curve rests at v over the whole window
+        for (int i = 0; i <= G; i++) {
+            bool lmin = (i == 0 || f[i] <= f[i - 1]) && (i == G || f[i] <= f[i + 1]);
+            if (!lmin) continue;
+            ld a = ts[i > 1 ? i - 2 : 0], b = ts[i + 2 < G ? i + 2 : G];
+            if (depth < 1) {
+                ld r = scan(a, b, depth + 1);
+                if (r >= 0) return r;
+                continue;
+            }
+            for (int it = 0; it < 100; it++) {  // ternary search in the bracket
+                ld m1 = a + (b - a) / 3, m2 = b - (b - a) / 3;
+                if (bez_dist2(c, m1, v) <= bez_dist2(c, m2, v)) b = m2; else a = m1;
+            }
+            ld tm = (a + b) / 2;
+            if (tm <= tlo) tm = nextafterl(tlo, 2.0L);
+            if (!final_vertex && tm > 1.0L - ldexpl(1.0L, -50))  // a vertex before the last one: stay below 1 on the 2^-60 grid
+                tm = tlo > 1.0L - ldexpl(1.0L, -49) ? (tlo + 1.0L) / 2 : 1.0L - ldexpl(1.0L, -50);
+            ld fm = bez_dist2(c, tm, v);
+            if (fm <= accept) return tm;  // first (smallest) acceptable minimum
+            if (best_f < 0 || fm < best_f) {
+                best_f = fm;
+                best_t = tm;
+            }
         }
+        return -1;
     }
-    return -1;
-}
-static double find_t(const std::vector<Vec2>& c, const Vec2& v, double tlo, double dtmax, ld scale) {
-    ld best_f = -1;
-    double best_t = std::min(1.0, tlo + dtmax);
-    double th = std::min(1.0, tlo + dtmax * (1 + 1e-9) + 1e-15);
-    double t = find_t_window(c, v, tlo, th, scale, best_f, best_t);
+};
+static ld find_t(const std::vector<Vec2>& c, const Vec2& v, ld tlo, double dtmax, ld scale) {
+    TSearch S{c, v, tlo, (1e-11L * scale) * (1e-11L * scale), -1, std::min((ld)1.0, tlo + dtmax), false};
+    ld th = std::min((ld)1.0, tlo + (ld)dtmax * (1 + 1e-9L) + 1e-15L);
+    ld t = S.scan(tlo, th, 0);
     if (t >= 0) return t;
-    if (th < 1.0) {
-        t = find_t_window(c, v, th, 1.0, scale, best_f, best_t);
+    if (th < 1.0L) {
+        t = S.scan(th, 1.0L, 0);
         if (t >= 0) return t;
     }
-    return best_t;
+    return S.best_t;
 }
 
 // ---------------------------------------------------------------- one polynomial section
@@ -222,7 +234,7 @@ struct Stats {
 static Stats g_stats;
 
 // floating-point estimate of max distance curve piece -> its chord, relative to tol
-static double piece_ratio(const std::vector<Vec2>& ctrl, double t0, double t1, const Vec2& a, const Vec2& b, double tol) {
+static double piece_ratio(const std::vector<Vec2>& ctrl, ld t0, ld t1, const Vec2& a, const Vec2& b, double tol) {
     ld worst = 0;
     for (int j = 1; j < 16; j++) {
         ld t = t0 + ((ld)t1 - t0) * j / 16, x, y;
@@ -605,7 +617,10 @@ static void run_curve(Out& out, const CurveDesc& d) {
                             if (rest_finite && pos < nv.size() && eqv(nv.back(), e))
                                 while (pos < nv.size()) sv.push_back(nv[pos++]);
                         } else if (!s.line) {
-                            while (pos + remaining < nv.size() && eqv(nv[pos], e)) sv.push_back(nv[pos++]);
+                            bool degenerate = true;
+                            for (auto& cp : s.ctrl) degenerate = degenerate && eqv(cp, e);
+                            if (degenerate)
+                                while (pos + remaining < nv.size() && eqv(nv[pos], e)) sv.push_back(nv[pos++]);
                         }
                         break;
                     }
@@ -636,14 +651,14 @@ static void run_curve(Out& out, const CurveDesc& d) {
                     continue;
                 }
                 // parameters
-                std::vector<double> ts;
+                std::vector<ld> ts;
                 if (s.line) {
                     ts.push_back(1.0);
                 } else {
                     double dtmax = (k == "bezier") ? 1.0 / (double)s.ctrl.size() : 1.0 / GDSTK_MIN_POINTS;
-                    double tl = 0;
+                    ld tl = 0;
                     for (size_t vi = 0; vi + 1 < sv.size(); vi++) {
-                        double t = find_t(s.ctrl, sv[vi], tl, dtmax, scale);
+                        ld t = find_t(s.ctrl, sv[vi], tl, dtmax, scale);
                         ts.push_back(t);
                         tl = t;
                     }
@@ -653,7 +668,7 @@ static void run_curve(Out& out, const CurveDesc& d) {
                     if (cls) {
                         double worst = 0;
                         Vec2 a = s.ctrl[0];
-                        double t0 = 0;
+                        ld t0 = 0;
                         for (size_t vi = 0; vi < sv.size(); vi++) {
                             worst = std::max(worst, piece_ratio(s.ctrl, t0, ts[vi], a, sv[vi], tol));
                             a = sv[vi];
@@ -665,7 +680,7 @@ static void run_curve(Out& out, const CurveDesc& d) {
                 }
                 secdata += " " + std::to_string(sv.size());
                 for (auto& p : sv) secdata += " " + hd2(p);
-                for (double t : ts) secdata += " " + grid60(t);
+                for (ld t : ts) secdata += " " + grid60(t);
                 nsec_done++;
             }
             if (pos < nv.size() && fail.empty()) setfail("FAIL " + k + ":extra vertices after the last requested end point");
